@@ -96,7 +96,7 @@ def replay_table(quick):
 
 
 def sim_table(quick):
-    n = 150 if quick else 2500
+    n = 150 if quick else 800
     return [
         ("sim_v0_cache1", "C12_v0.cfg", {"Txs": ABCD, "CacheSize": 1, "MaxBlock": 2, "Gases": [1, 2], "MaxHeight": 3,
                                          "PreLimits": [3], "PostLimits": [1], "Peers": [1, 2]}, n),
@@ -221,13 +221,14 @@ def build_runs(ctx, quick):
     skip = set(filter(None, os.environ.get("C12_DEV_SKIP", "").split(",")))   # development only -> exit 2
     info["dev_skip"] = sorted(skip)
 
-    ex = ThreadPoolExecutor(max_workers=POOL)
+    pool, workers = (POOL, WORKERS) if quick else (2, 4)
+    ex = ThreadPoolExecutor(max_workers=pool)
 
     # ---- 1. exhaustive design-spec runs ---------------------------------------------------
     def exh(label, base, over):
         def job():
             cfg = core.cfg_variant(ctx, base, "C12_run_%s.cfg" % label, {k: tla(v) for k, v in over.items()})
-            return label, ctx.tlc("C12_mc", cfg, must_pass=True, timeout=tmo, workers=WORKERS, label=label, heap="4g")
+            return label, ctx.tlc("C12_mc", cfg, must_pass=True, timeout=tmo, workers=workers, label=label, heap="4g")
         return job
 
     # ---- 2. non-vacuity: every weakened spec is refuted; counterexamples become schedules -----
@@ -240,7 +241,7 @@ def build_runs(ctx, quick):
         def job():
             cfg = core.cfg_variant(ctx, base, "C12_run_%s.cfg" % label, {k: tla(v) for k, v in over.items()})
             dot = os.path.join(ctx.work, label + ".dot")
-            r = ctx.tlc("C12_mc", cfg, dump=["dot,actionlabels", dot], must_pass=True, timeout=tmo, workers=WORKERS,
+            r = ctx.tlc("C12_mc", cfg, dump=["dot,actionlabels", dot], must_pass=True, timeout=tmo, workers=workers,
                         label=label, heap="4g")
             g = core.parse_dot(dot)
             os.remove(dot)
@@ -364,7 +365,7 @@ def run(ctx):
     quick = ctx.tier == "quick"
     runs, info = build_runs(ctx, quick)
 
-    nrandom, randlen, nconc = (120, 40, 12) if quick else (2500, 60, 150)
+    nrandom, randlen, nconc = (120, 40, 12) if quick else (1000, 60, 80)
     with ThreadPoolExecutor(max_workers=2) as ex:
         f0 = ex.submit(run_harness, ctx, "v0", runs["v0"], nrandom, randlen, nconc)
         f1 = ex.submit(run_harness, ctx, "v1", runs["v1"], nrandom, randlen, nconc)
